@@ -30,7 +30,7 @@ package tls
 // C12: a cipher suite is returned only when the server's choice is among the offered ids, and it is
 // the suite with exactly that id.
 //@ func cipherSuiteByID
-//@   property C12
+//@   property C12 C27
 //@   requires suitesOK()
 //@   pure
 //@   ensures id: ret != nil ==> ret.id == id
